@@ -418,6 +418,10 @@ ASSUMPTIONS = [
     'output of FlowIRConcrete.replicate() is then used only to describe the shape of the failure',
     'order of references is judged only inside one aggregated group (copies 0..N-1 ascending); the command line is '
     'compared token by token (a reference to a replicated producer in an aggregating command line expands in place)',
+    'attribution to the accepted known findings (never the verdict) uses a string-level model of today\'s textual '
+    'rewriting (oracles/c03_known_model.py): a failing case is attributed only if the trigger is present, every '
+    'discrepancy has the predicted shape AND the raw expansion of every component equals the model\'s prediction '
+    'string for string; any other corruption (e.g. of an absolute spelling that is intact today) is a VIOLATION',
     'workflowAttributes.replicate of the copies, isReplicationPoint and isAggregate are not judged (the statement does '
     'not mention them)',
     'a replica count given through a variable is the value the documented layering (global < stage < component '
